@@ -1413,6 +1413,20 @@ impl<'a> Socket<'a> {
         self.remote_last_seq - self.local_seq_no
     }
 
+    /// The sequence number following the highest one sent so far (SND.NXT in RFC 9293 terms).
+    ///
+    /// `remote_last_seq` is rewound to `local_seq_no` when the retransmission timer fires, so
+    /// it says where to (re)send from. A segment that occupies no sequence space must not
+    /// carry that rewound number: the remote end, whose RCV.NXT may be well ahead of it,
+    /// would discard the segment as a stale duplicate together with the acknowledgement
+    /// and window it carries.
+    fn send_next_seq(&self) -> TcpSeqNumber {
+        match self.rtte.max_seq_sent {
+            Some(max_seq_sent) if max_seq_sent > self.remote_last_seq => max_seq_sent,
+            _ => self.remote_last_seq,
+        }
+    }
+
     fn cwnd_remaining(&self) -> usize {
         self.congestion_controller
             .inner()
@@ -1497,7 +1511,7 @@ impl<'a> Socket<'a> {
         // [...] an empty acknowledgment segment containing the current send-sequence number
         // and an acknowledgment indicating the next sequence number expected
         // to be received.
-        reply_repr.seq_number = self.remote_last_seq;
+        reply_repr.seq_number = self.send_next_seq();
         reply_repr.ack_number = Some(self.remote_seq_no + self.rx_buffer.len());
         self.remote_last_ack = reply_repr.ack_number;
 
@@ -2770,6 +2784,11 @@ impl<'a> Socket<'a> {
             State::FinWait2 | State::TimeWait => {}
         }
 
+        // A bare ACK (or window update) is sent with SND.NXT, see `send_next_seq`.
+        if repr.is_empty() && repr.control == TcpControl::None {
+            repr.seq_number = self.send_next_seq();
+        }
+
         // There might be more than one reason to send a packet. E.g. the keep-alive timer
         // has expired, and we also have data in transmit buffer. Since any packet that occupies
         // sequence space will elicit an ACK, we only need to send an explicit packet if we
@@ -2853,9 +2872,11 @@ impl<'a> Socket<'a> {
         // We've sent a packet successfully, so we can update the internal state now.
         // Use max() so a fast-retransmit segment (whose seq_number is local_seq_no, well
         // behind the current frontier) doesn't rewind the tracked "highest sent" sequence.
-        self.remote_last_seq = self
-            .remote_last_seq
-            .max(repr.seq_number + repr.segment_len());
+        if repr.segment_len() > 0 {
+            self.remote_last_seq = self
+                .remote_last_seq
+                .max(repr.seq_number + repr.segment_len());
+        }
         self.remote_last_ack = repr.ack_number;
         // `remote_last_win` is kept in scaled units, but the window field of a SYN is not scaled.
         self.remote_last_win = if repr.control == TcpControl::Syn {
